@@ -57,6 +57,18 @@ func (g *gen) ecs() string {
 	return ecsSent[g.rng.IntN(len(ecsSent))]
 }
 
+// scopedECS prefers an ECS option that maps to a scoped audience when ECS
+// handling is on (3 of 4); otherwise like ecs().
+func (g *gen) scopedECS() string {
+	e := g.ecs()
+	if g.h.c.Cfg.ECS && g.rng.IntN(4) != 0 {
+		for i := 0; i < 20 && audience(true, e) == ""; i++ {
+			e = ecsSent[g.rng.IntN(len(ecsSent))]
+		}
+	}
+	return e
+}
+
 func (g *gen) mixCase(name string) string {
 	if g.rng.IntN(3) != 0 {
 		return name
@@ -336,15 +348,27 @@ func (g *gen) zoneNearMisses(z, failed string) {
 func (g *gen) resetEpisode() {
 	z := g.freshZone()
 	if g.rng.IntN(2) == 0 {
-		o := g.base("r."+z, qtypes[g.rng.IntN(3)], g.rng.IntN(3) == 0, g.ecs())
+		// the failing question belongs to one audience; with ECS handling on
+		// mostly a scoped one (state only ResetMatching clears)
+		o := g.base("r."+z, qtypes[g.rng.IntN(3)], g.rng.IntN(3) == 0, g.scopedECS())
+		// sometimes the zone fails along with it: the one useful answer must
+		// reset the audience's question state AND the shared zone history
+		withZone := g.rng.IntN(3) == 0
+		fail := func() plan {
+			p := g.failPlan()
+			if withZone {
+				p.ZoneFail = z
+			}
+			return p
+		}
 		for i, n := 0, 2+g.rng.IntN(3); i < n; i++ {
-			g.h.Q(g.again(o, g.failPlan(), "fail"))
+			g.h.Q(g.again(o, fail(), "fail"))
 			g.expire(g.h.keyOf(&o))
 		}
 		g.h.Q(g.again(o, g.okPlan(), "useful"))
 		// let the useful answer itself leave the answer cache (5 s floor)
 		g.h.Adv(5*time.Second + time.Duration(g.rng.IntN(1500))*time.Millisecond + time.Millisecond)
-		g.h.Q(g.again(o, g.failPlan(), "fail-after-useful"))
+		g.h.Q(g.again(o, fail(), "fail-after-useful"))
 		g.expire(g.h.keyOf(&o))
 		g.h.Q(g.again(o, g.okPlanOrFail(), "probe-after-reset"))
 		return
